@@ -22,6 +22,16 @@ CLAIMED = {
          'A: every (epoch text, upstream, revision, surrounding whitespace, entry point) combination of the Policy grammar over small alphabets must parse to exactly its parts; B: one generator per rejection clause of the statement, at every position, must be rejected; C: every string over a 9-symbol alphabet up to length 5 (quick) / 7 (thorough) that the parser accepts must survive String, MarshalControl, MarshalText and JSON round trips. Completed spaces, not samples.',
          'Epoch values in (2^31, 2^63) are not demanded either way; strings longer than the bound are not explored.',
          'DESIGN.md §3 C03'),
+ 'C04': ('model_checking',
+         'bounded-exhaustive enumeration of dependency ASTs with an independent renderer; deviation-bounded DFS over whitespace gaps; exhaustive single-edit and constructed malformations classified by an independent recogniser',
+         'The expected value is the AST the text was rendered from (nothing is parsed to obtain it). Enumerated: the full product of single-possibility shapes (name x qualifier x version x architecture list x negation x profile groups x every order of the groups), all fields of <= 3 (quick) / 4 (thorough) possibilities over 8 representatives with every ,/| assignment, every rendering with <= 1 / 2 non-default whitespace gaps (none, blank, two blanks, tab, newline, newline+blank at every gap), every single deletion / insertion / substitution of the canonical renderings and every constructed second-clause / two-names / truncation / mixed-negation / unknown-operator malformation. Malformed inputs are classified by a second, independently written recursive-descent recogniser with reason codes; only the reasons the statement lists are demanded to be rejected.',
+         'Policy 7.1 reading of legal spacing; recogniser and renderer are trusted (they are validated against each other: every rendering must be accepted by the recogniser with the same AST); names, versions and architecture names come from small alphabets.',
+         'DESIGN.md §3 C04'),
+ 'C06': ('model_checking',
+         'bounded-exhaustive product enumeration over a data-independent abstraction, against component-wise reference predicates',
+         'Arch.Is on all 65x65 ordered pairs of the data-independent domain (all, and abi-os-cpu with each component any or one of three generic names) plus 23 real Debian names; ArchSet.Matches on all lists of length 0..3 over 6 patterns, negated or not, for 5 architectures, built through Parse and as structs; possibility selection on all dependencies of <= 2 relations x <= 3 alternatives over 6 alternative shapes for 3 architectures; SatisfiedBy on 12 operators x 40 versions x (40 versions + 8 unparsable numbers) including V == N. All executed on the real code and compared with reference predicates written from the statement.',
+         'Name denotation per dpkg-architecture (cpu = gnu-linux-cpu; os-cpu = gnu-os-cpu unless a part is any); wildcard-vs-wildcard answers only need to be symmetric; reference order from C01.',
+         'DESIGN.md §3 C06'),
 }
 REASON_PENDING = 'check not built yet in this session (planned: see DESIGN.md §3); no claim is made until it exists'
 
